@@ -994,7 +994,8 @@ def run(ctx):
     ctx.notes["phase_s"] = {"child": round(_t.time() - t0, 1)}
     skipped, verdicts = [], []
     dist = {"flavour": {}, "verdict": {}, "expanded_variables": 0, "scalars": 0, "rank": {}, "with_delay": 0,
-            "component_arrays": 0, "der_arrays": 0, "array_attributes": 0, "residual_entries": 0}
+            "component_arrays": 0, "der_arrays": 0, "array_attributes": 0, "residual_entries": 0,
+            "symbolic_element_attributes": 0, "indexed_symbolic_attributes": 0, "metadata_functions_evaluated": 0}
     nontrivial = set()
     enc, enc_idx = [], []
     for i, (c, r) in enumerate(zip(cases, results)):
@@ -1027,6 +1028,12 @@ def run(ctx):
                     dist["array_attributes"] += sum(1 for a in ATTRS if uv["attrs"][a]["k"] != "s")
         if r.get("U_delay_states"):
             dist["with_delay"] += 1
+        for d in c["desc"]["decls"]:
+            for sp in list(d["attrs"].values()) + ([d["value"]] if d["value"] else []):
+                dist["symbolic_element_attributes"] += sp[0] == "symexpr"
+                dist["indexed_symbolic_attributes"] += sp[0] in ("arrexpr", "scaled")
+        if "groups" in (r.get("E_meta") or {}):
+            dist["metadata_functions_evaluated"] += 1
         if "E" in r:
             dist["scalars"] += sum(len(r["E"][g]) for g in GROUPS)
             if "E_res" in r and "dae" in r["E_res"]:
